@@ -14,7 +14,9 @@ Refinements proved (all inputs): quoted strings in every form (`closing_quote_re
 `string_literal_refines`), Oracle q-strings for all 223 delimiters, dollar strings (both forms),
 end-of-line comments, bracket words, `/* … */` comments with their class (`slash_comment_refines`: first `*/`
 at or after the opener; class `X` iff a nested `/*` or `/*!`; `slash_operator_refines`), the verdict cascade
-(`cascade_refines`). Not yet theorems: the number grammar, the word split (`conformance_statement`). -/
+(`cascade_refines`), the word lexer with its keyword split (`word_refines`, `splitLoop_first`: the token is the keyword
+before the *first* `.` / back-tick that follows a non-bareword keyword, else the whole run classified by the table).
+Not yet a theorem: the number grammar (`conformance_statement`). -/
 namespace LibInj.Properties.C06
 open LibInj LibInj.Sqli LibInj.Spec
 
@@ -163,5 +165,108 @@ theorem slash_operator_refines (rest : Bytes) (hne : rest ≠ []) (h1 : rest[1]?
 by its `!`; `/*a*/` is a plain comment -/
 example : slashEvil (bs "/*a/*b*/c") 4 = true ∧ slashEvil (bs "/*!1*/") 2 = true ∧ slashEvil (bs "/*a*/") 1 = false ∧
     indexOf ((bs "/*a/*b*/c").drop 2) [42, 47] = some 4 := by decide +kernel
+
+/-- the keyword split of a word applies at offset `i`: a `.` or back-tick there, and the text before it is a keyword of a
+class other than bareword -/
+def SplitAt (v : Bytes) (i : Nat) : Prop :=
+  (v[i]? = some 46 ∨ v[i]? = some 96) ∧ searchKeyword (v.take i) ≠ 0 ∧ searchKeyword (v.take i) ≠ 110
+
+theorem splitLoop_first (rest : Bytes) (t : Token) (hv : t.val.length = t.len) (hr : t.len ≤ rest.length) :
+    ∀ fuel i0, t.len - i0 < fuel →
+      (∀ i, i0 ≤ i → SplitAt t.val i → (∀ j, i0 ≤ j → j < i → ¬ SplitAt t.val j) →
+        splitLoop rest t i0 fuel = .ok (some { tok := { cat := searchKeyword (t.val.take i), pos := 0, len := clip i, val := rest.take (clip i) }, next := i })) ∧
+      ((∀ j, i0 ≤ j → ¬ SplitAt t.val j) → splitLoop rest t i0 fuel = .ok none) := by
+  intro fuel
+  induction fuel with
+  | zero => intro i0 h; omega
+  | succ fuel ih =>
+    intro i0 hf
+    unfold splitLoop
+    by_cases hi : i0 < t.len
+    · have hlt : i0 < t.val.length := by omega
+      have hg : t.val[i0]? = some t.val[i0] := List.getElem?_eq_getElem hlt
+      simp only [hi, ↓reduceIte, at'_ok hlt, bind, Except.bind]
+      obtain ⟨ih1, ih2⟩ := ih (i0 + 1) (by omega)
+      by_cases hd : (t.val[i0] == 46 || t.val[i0] == 96) = true
+      · have hd' : t.val[i0] = 46 ∨ t.val[i0] = 96 := by simpa using hd
+        simp only [hd, ↓reduceIte, slice_ok t.val 0 i0 (Nat.zero_le _) (by omega), List.drop_zero, Nat.sub_zero]
+        by_cases hk : (searchKeyword (t.val.take i0) != 0 && searchKeyword (t.val.take i0) != 110) = true
+        · -- the split applies here
+          have hk' : searchKeyword (t.val.take i0) ≠ 0 ∧ searchKeyword (t.val.take i0) ≠ 110 := by simpa using hk
+          have hsp : SplitAt t.val i0 := ⟨by rw [hg]; rcases hd' with h | h <;> simp [h], hk'.1, hk'.2⟩
+          simp only [hk, ↓reduceIte, pure, Except.pure]
+          rw [assign_ok _ _ _ _ _ (by have := clip_le i0; omega)]
+          constructor
+          · intro i hi0 hsi hfirst
+            have : i = i0 := by
+              rcases Nat.lt_or_ge i0 i with h | h
+              · exact absurd hsp (hfirst i0 (Nat.le_refl _) h)
+              · omega
+            subst this; rfl
+          · intro hno; exact absurd hsp (hno i0 (Nat.le_refl _))
+        · have hns : ¬ SplitAt t.val i0 := by
+            intro ⟨_, h1, h2⟩; apply hk; simp [h1, h2]
+          simp only [hk, Bool.false_eq_true, ↓reduceIte]
+          constructor
+          · intro i hi0 hsi hfirst
+            have hne : i ≠ i0 := fun e => hns (e ▸ hsi)
+            exact ih1 i (by omega) hsi (fun j hj hlt => hfirst j (by omega) hlt)
+          · intro hno; exact ih2 (fun j hj => hno j (by omega))
+      · have hns : ¬ SplitAt t.val i0 := by
+          intro ⟨h0, _, _⟩
+          rw [hg] at h0
+          apply hd
+          rcases h0 with h | h <;> (have := Option.some.inj h; simp [this])
+        simp only [hd, Bool.false_eq_true, ↓reduceIte]
+        constructor
+        · intro i hi0 hsi hfirst
+          have hne : i ≠ i0 := fun e => hns (e ▸ hsi)
+          exact ih1 i (by omega) hsi (fun j hj hlt => hfirst j (by omega) hlt)
+        · intro hno; exact ih2 (fun j hj => hno j (by omega))
+    · simp only [hi, ↓reduceIte]
+      constructor
+      · intro i hi0 ⟨h0, _, _⟩ _
+        rw [List.getElem?_eq_none (by omega)] at h0
+        rcases h0 with h | h <;> cases h
+      · intro _; trivial
+
+/-- **the word lexer refines its declarative meaning**: the word is the longest run of non-delimiter bytes (clipped to 31
+bytes for the value); if a keyword split applies inside the value, the token is the keyword before the *first* such `.` /
+back-tick and scanning resumes at it; otherwise the token spans the run, classified by the table when shorter than 32 bytes -/
+theorem word_refines (rest : Bytes) (L : Nat) (v : Bytes) (hLd : spn notWordAccept rest = L) (hvd : v = rest.take (clip L)) :
+    (∀ i, SplitAt v i → (∀ j, j < i → ¬ SplitAt v j) →
+      parseWord rest = .ok { tok := { cat := searchKeyword (v.take i), pos := 0, len := clip i, val := rest.take (clip i) }, next := i }) ∧
+    ((∀ j, ¬ SplitAt v j) →
+      parseWord rest = .ok { tok := { cat := if L < tokenSize then (if searchKeyword v == 0 then 110 else searchKeyword v) else 110,
+                                      pos := 0, len := clip L, val := v }, next := L }) := by
+  have hL : L ≤ rest.length := by rw [← hLd]; exact spn_le _ _
+  have hcl : clip L ≤ rest.length := by have := clip_le L; omega
+  have hvl : v.length = clip L := by rw [hvd]; simp [List.length_take]; omega
+  have hass : assign {} 110 0 L rest = .ok { cat := 110, pos := 0, len := clip L, val := v } := by
+    rw [assign_ok _ _ _ _ _ hcl, hvd]
+  obtain ⟨h1, h2⟩ := splitLoop_first rest { cat := 110, pos := 0, len := clip L, val := v } hvl hcl (clip L + 1) 0 (by simp)
+  constructor
+  · intro i hs hfirst
+    unfold parseWord
+    simp only [hLd, bind, Except.bind, hass]
+    rw [h1 i (Nat.zero_le _) hs (fun j _ hlt => hfirst j hlt)]
+    rfl
+  · intro hno
+    unfold parseWord
+    simp only [hLd, bind, Except.bind, hass]
+    rw [h2 (fun j _ => hno j)]
+    simp only [pure, Except.pure]
+    by_cases hlt : L < tokenSize
+    · have hcL : clip L = L := by unfold clip; simp [hlt]
+      simp only [hlt, ↓reduceIte]
+      rw [slice_ok v 0 L (Nat.zero_le _) (by omega)]
+      simp only [List.drop_zero, Nat.sub_zero]
+      have : v.take L = v := by rw [← hcL, ← hvl]; exact List.take_length
+      rw [this]
+    · simp only [hlt, ↓reduceIte]
+
+/-- non-vacuity: in `select.x` the split applies at offset 6 (`SELECT` is a keyword of class `E`), and at no earlier offset -/
+example : SplitAt (bs "select.x") 6 ∧ searchKeyword ((bs "select.x").take 6) = 69 := by
+  refine ⟨⟨Or.inl (by decide +kernel), by decide +kernel, by decide +kernel⟩, by decide +kernel⟩
 
 end LibInj.Properties.C06
